@@ -19,7 +19,8 @@ MODPATH = 'github.com/bluenviron/gomavlib/v3'
 
 
 class Task:
-    def __init__(self, root, args=(), opts=None, pkg=None, prefixes=None, label=None):
+    def __init__(self, root, args=(), opts=None, pkg=None, prefixes=None, label=None, group=None):
+        self.group = group        # program group (one gossa run); None = the default group
         self.root = root          # short harness name
         self.args = list(args)
         self.opts = dict(opts or {})
@@ -40,17 +41,25 @@ def _worker_init(json_path, base_opts):
     _W['json'] = json_path
     _W['base'] = base_opts
     _W['engines'] = {}
-    _W['prog'] = None
+    _W['order'] = []
 
 
-def _get_engine(opts):
+def _get_engine(opts, jpath=None):
     from .ir import Program
     from .engine import Engine
-    key = json.dumps(opts, sort_keys=True)
+    jpath = jpath or _W['json']
+    key = jpath + '|' + json.dumps(opts, sort_keys=True)
     e = _W['engines'].get(key)
+    if e is not None:
+        _W['order'].remove(key)
+        _W['order'].append(key)
     if e is None:
+        while len(_W['order']) >= 3:
+            old = _W['order'].pop(0)
+            del _W['engines'][old]
+        _W['order'].append(key)
         # a Program is decoded in place with engine-specific constants: one Program per engine
-        prog = Program(_W['json'])
+        prog = Program(jpath)
         o = dict(_W['base'])
         o.update(opts)
         e = Engine(prog, o)
@@ -66,10 +75,10 @@ def _get_engine(opts):
 
 def _run_task(t):
     from .engine import Stats
-    (root, args, opts, prefixes, slice_s, label, max_samples) = t
+    (root, args, opts, prefixes, slice_s, label, max_samples, jpath) = t
     t0 = time.time()
     try:
-        E = _get_engine(opts)
+        E = _get_engine(opts, jpath)
         E.stats = Stats()
         E.violations = []
         E.inconclusive = []
@@ -231,19 +240,38 @@ def run_check(spec, tier='quick', seed=0, jobs=None, keep=False, verbose=True):
           'violations': 0}
     try:
         overlay = os.path.join(work, 'overlay')
-        extra = spec.generate(tier) if hasattr(spec, 'generate') else {}
+        prep = spec.prepare(tier, work) if hasattr(spec, 'prepare') else {}
+        extra = prep.get('extra') if prep else None
+        if extra is None:
+            extra = spec.generate(tier) if hasattr(spec, 'generate') else {}
         pkgs = R.build_overlay(overlay, spec.HARNESS_FILES, extra, getattr(spec, 'CLOCK_PKGS', ()))
-        load_pkgs = sorted(set(pkgs) | set(getattr(spec, 'EXTRA_PKGS', [])))
-        jpath = os.path.join(work, 'ssa.json')
-        inits = [x for x in getattr(spec, 'INITS', '').split(',') if x]
-        for p in pkgs:
-            ip = MODPATH if p == '.' else MODPATH + '/' + p
-            if ip not in inits:
-                inits.append(ip)
-        gs, gmsg = R.run_gossa(overlay, load_pkgs, getattr(spec, 'ROOTS', ['verifHarness_']), jpath,
-                               allow=getattr(spec, 'ALLOW', ''), inits=','.join(inits),
-                               mtypes=getattr(spec, 'MTYPES', ''))
-        log('[%s] %s (%.1fs)' % (pid, gmsg, gs))
+        groups = prep.get('groups') if prep else None
+        if not groups:
+            groups = [{'name': None, 'pkgs': sorted(set(pkgs) | set(getattr(spec, 'EXTRA_PKGS', []))),
+                       'roots': getattr(spec, 'ROOTS', ['verifHarness_'])}]
+        jpaths = {}
+
+        def gossa_group(g):
+            gp = g['pkgs']
+            inits = [x for x in g.get('inits', getattr(spec, 'INITS', '')).split(',') if x]
+            for p in gp:
+                if p in pkgs:
+                    ip = MODPATH if p == '.' else MODPATH + '/' + p
+                    if ip not in inits:
+                        inits.append(ip)
+            jp = os.path.join(work, 'ssa_%s.json' % (g['name'] or 'main').replace('/', '_'))
+            gs, gmsg = R.run_gossa(overlay, gp, g['roots'], jp, allow=g.get('allow', getattr(spec, 'ALLOW', '')),
+                                   inits=','.join(inits), mtypes=g.get('mtypes', getattr(spec, 'MTYPES', '')))
+            return g['name'], jp, gs, gmsg
+        from concurrent.futures import ThreadPoolExecutor
+        with ThreadPoolExecutor(max_workers=8) as ex:
+            for name, jp, gs, gmsg in ex.map(gossa_group, groups):
+                jpaths[name] = jp
+                if len(groups) <= 3:
+                    log('[%s] %s (%.1fs)' % (pid, gmsg, gs))
+        if len(groups) > 3:
+            log('[%s] gossa: %d program groups built (%.1fs)' % (pid, len(groups), time.time() - t_start))
+        jpath = jpaths.get(None) or list(jpaths.values())[0]
         base_opts = dict(getattr(spec, 'OPTIONS', {}))
         tasks = spec.tasks(tier)
         for t in tasks:
@@ -258,6 +286,7 @@ def run_check(spec, tier='quick', seed=0, jobs=None, keep=False, verbose=True):
                'trivial': 0, 'unknown': 0, 'forks': 0}
         reach = {}
         oblig_tags = {}
+        other_tags = {}
         funcs = set()
         samples = []
         violations = []
@@ -271,14 +300,19 @@ def run_check(spec, tier='quick', seed=0, jobs=None, keep=False, verbose=True):
         def submit(t, prefixes=None):
             nonlocal pending
             pending += 1
-            a = (t.full_root(), t.args, t.opts, prefixes, slice_s, t.label, nsamp)
+            a = (t.full_root(), t.args, t.opts, prefixes, slice_s, t.label, nsamp, jpaths.get(t.group, jpath))
             pool.apply_async(_run_task, (a,), callback=lambda r, t=t: results.append((t, r)),
                              error_callback=lambda e, t=t: results.append((t, {'error': str(e), 'left': [], 'label': t.label})))
         for t in tasks:
             submit(t, t.prefixes)
         deadline = time.time() + spec.budget_s(tier) if hasattr(spec, 'budget_s') else None
         timed_out = False
+        last_log = time.time()
+        ndone = 0
         while pending:
+            if time.time() - last_log > 30:
+                last_log = time.time()
+                log('[%s] ... %d task runs done, %d pending, paths=%d, %.0fs' % (pid, ndone, pending, agg['paths'], time.time() - t_start))
             if not results:
                 time.sleep(0.02)
                 if deadline and time.time() > deadline:
@@ -287,6 +321,7 @@ def run_check(spec, tier='quick', seed=0, jobs=None, keep=False, verbose=True):
                 continue
             t, r = results.pop()
             pending -= 1
+            ndone += 1
             if 'error' in r:
                 errors.append('%s: %s' % (r.get('label'), r['error']))
                 continue
@@ -304,6 +339,10 @@ def run_check(spec, tier='quick', seed=0, jobs=None, keep=False, verbose=True):
                     samples.append(s)
             for v in r['violations']:
                 v['task'] = t
+                tf = getattr(spec, 'TAG_FILTER', None)
+                if tf and v['kind'] == 'assert' and not v['tag'].startswith(tf):
+                    other_tags[v['tag']] = other_tags.get(v['tag'], 0) + 1
+                    continue
                 violations.append(v)
             for m in r['inconclusive']:
                 inconclusive.append('%s: %s' % (r['label'], m))
@@ -314,6 +353,12 @@ def run_check(spec, tier='quick', seed=0, jobs=None, keep=False, verbose=True):
             pt['paths'] += r['paths']
             pt['wall'] += r['wall']
             left = r['left']
+            cap = getattr(spec, 'MAX_PATHS_PER_TASK', 20000)
+            if left and pt['paths'] > cap:
+                if not pt.get('capped'):
+                    pt['capped'] = True
+                    inconclusive.append('%s: path budget (%d) exceeded, exploration of this instance abandoned' % (r['label'], cap))
+                left = None
             if left:
                 # split leftover prefixes over several new tasks
                 k = max(1, min(len(left), jobs // 2))
@@ -329,6 +374,8 @@ def run_check(spec, tier='quick', seed=0, jobs=None, keep=False, verbose=True):
             pid, agg['paths'], agg['instrs'], agg['obligations'], agg['discharged'], agg['queries'], agg['solver_s'],
             len(violations), len(inconclusive), len(errors), time.time() - t_start))
 
+        slow = sorted(per_task.items(), key=lambda kv: -kv[1]['wall'])[:int(os.environ.get('VERIF_SLOWEST', '5'))]
+        log('[%s] slowest tasks: %s' % (pid, ', '.join('%s %.1fs/%dp' % (k, v['wall'], v['paths']) for k, v in slow)))
         # vacuity: every required tag must be reached
         missing = [tg for tg in spec.required_reach(tier) if reach.get(tg, 0) == 0]
         if missing:
@@ -352,10 +399,19 @@ def run_check(spec, tier='quick', seed=0, jobs=None, keep=False, verbose=True):
             if seen_v[key] <= getattr(spec, 'REPLAYS_PER_TAG', 3):
                 by_pkg.setdefault(v['task'].pkg, []).append(('viol', v))
         skip_native = os.environ.get('VERIF_SKIP_NATIVE') == '1'
+        obs_pkgs = sorted(p for p, it in by_pkg.items() if any(x[0] == 'obs' for x in it))
+        maxp = getattr(spec, 'NATIVE_PKGS_MAX', None)
+        if maxp and len(obs_pkgs) > maxp:
+            import random
+            keep_p = set(random.Random(seed).sample(obs_pkgs, maxp))
+        else:
+            keep_p = set(obs_pkgs)
         for pkg, items in by_pkg.items():
             if skip_native:
                 break
-            obs_items = [x for x in items if x[0] == 'obs']
+            obs_items = [x for x in items if x[0] == 'obs' and pkg in keep_p]
+            if not obs_items and not any(x[0] == 'viol' for x in items):
+                continue
             max_obs = getattr(spec, 'MAX_VALIDATE', 40)
             if len(obs_items) > max_obs:
                 import random
@@ -488,6 +544,7 @@ def run_check(spec, tier='quick', seed=0, jobs=None, keep=False, verbose=True):
             'stubs': getattr(spec, 'STUBS', []),
             'tasks': len(per_task),
             'spurious_counterexamples': len(spurious),
+            'violations_of_assertions_owned_by_other_checks': other_tags,
             'known_findings_hit': [k.get('what', '') for k, _ in known_hits][:10],
             'inconclusive': inconclusive[:10],
             'errors': [e[:500] for e in errors[:5]],
@@ -529,7 +586,10 @@ def replay_file(path):
     work = tempfile.mkdtemp(prefix='verif-replay-')
     try:
         overlay = os.path.join(work, 'overlay')
-        extra = spec.generate('quick') if hasattr(spec, 'generate') else {}
+        prep = spec.prepare('quick', work) if hasattr(spec, 'prepare') else {}
+        extra = prep.get('extra') if prep else None
+        if extra is None:
+            extra = spec.generate('quick') if hasattr(spec, 'generate') else {}
         R.build_overlay(overlay, spec.HARNESS_FILES, extra, getattr(spec, 'CLOCK_PKGS', ()))
         res = native_replay(overlay, work, d['pkg'], [{'harness': d['harness'], 'args': d['args'], 'vector': d['vector']}])
         print(json.dumps(res[0], indent=1))
